@@ -103,7 +103,7 @@ def p_c14(facts, rep, tier):
     n3, nj = errflow.r3_tasks_joined(facts, rep, st)
     n4 = errflow.r4_error_exits_poison(facts, rep)
     n6 = errflow.r6_completion_source(facts, rep) + errflow.r6b_classifier(facts, rep)
-    rep.floor("R6 obligations", n6, 5)
+    rep.floor("R6 obligations", n6, 4)
     import termination
 
     n7f, n7 = termination.bounded_region(facts, rep, ["nomt::bitbox::allocate_bucket"], "R7")
